@@ -19,10 +19,10 @@ func regR(id, title string, quick int64) {
 }
 
 func registerOther() {
-	regR("C09", "balancing never loses, duplicates or miscounts a player", 12000)
-	regR("C19", "no table over capacity", 20000)
-	regR("C20", "rebalancing settles", 20000)
-	regS("C08", "dealer and blinds land on the right seats", 30000)
-	regS("C17", "the button moves correctly", 30000)
-	regS("C18", "no double booking, no crash", 12000)
+	regR("C09", "balancing never loses, duplicates or miscounts a player", 20000)
+	regR("C19", "no table over capacity", 40000)
+	regR("C20", "rebalancing settles", 40000)
+	regS("C08", "dealer and blinds land on the right seats", 120000)
+	regS("C17", "the button moves correctly", 120000)
+	regS("C18", "no double booking, no crash", 60000)
 }
